@@ -693,7 +693,7 @@ func noPanicFor(c *Ctx, prop string) {
 	case "C04":
 		noPanicRule(c, "C04/NO-PANIC", []string{"pkg/base", "pkg/conn", "internal/base64streamreader"}, nil, 20)
 	case "C05":
-		noPanicRule(c, "C05/NO-PANIC", []string{"pkg/sdpunmarshaler", "pkg/description", "pkg/format"}, nil, 20)
+		noPanicRule(c, "C05/NO-PANIC", []string{"pkg/sdpunmarshaler", "pkg/description", "pkg/format", "pkg/mikey", "pkg/headers"}, nil, 40)
 	case "C08":
 		noPanicRule(c, "C08/NO-PANIC", append([]string{"pkg/format", "pkg/rtcpunmarshaler"}, decoderPkgs...), notEncoder, 60)
 	case "C09":
